@@ -40,6 +40,12 @@ CHECKS['C04'] = dict(text='Symbolic execution of the vftable construction for 1.
              'vftable pointer; on rejected paths it proves the indices/size were contradictory.',
              note='slot arithmetic and table layout only; the run-time dispatch clause (wrapper loads the table and calls the slot) needs execution of emitted code and is not decided here; indices < 6, size < 8',
              design='4/C04')
+CHECKS['C16'] = dict(text='Symbolic execution of function::build and the vftable construction with the calling-convention attribute ranging over absent, the '
+             'seven names and an unknown name, receivers none/&self/&mut self, in impl functions, vftable slots (incl. placeholders and the slot\'s '
+             'function-pointer type in the generated vftable struct) and derived tables (depth 1 and 2): z3 proves every occurrence carries the '
+             'declared convention or the documented default and that the unknown name is rejected.',
+             note='semantic values only; the extern "<cc>" token emitted by the backend is CallingConvention::as_str of the checked value and is not executed',
+             design='4/C16')
 NA = {}
 ALL = [json.loads(l)['id'] for l in open('properties.jsonl')]
 for p in ALL:
